@@ -82,7 +82,7 @@ Lemma inv_end_cleanup : INVb false end_cleanup.
 Proof. intros s; constructor; cbn; auto using sub_nil; discriminate. Qed.
 Lemma inv_pop_cleanup : INVb false pop_cleanup.
 Proof.
-  intros s; unfold pop_cleanup. destruct (cleanups (ts s)) as [|[id c] rest];
+  intros s; unfold pop_cleanup. destruct (cleanups (ts s)) as [|[id c] rest]; [|destruct (cleaning (ts s))];
     constructor; cbn; auto using sub_nil; discriminate.
 Qed.
 Lemma inv_failOnError l : INV (failOnError l).
